@@ -58,7 +58,28 @@ async def replay_real(sc, actions, workdir):
         # the child blocks reading its exit code from the FIFO; start/end are journaled (O_APPEND writes are atomic)
         return f"echo start {i} >> {journal}; read code < {fifos[i]}; echo end {i} >> {journal}; exit $code"
 
+    def journal_starts():
+        try:
+            return sum(1 for ln in open(journal) if ln.startswith("start "))
+        except OSError:
+            return 0
+
+    async def wait_expected(exp):
+        """Wait (generously: the machine may be loaded) until the real pool has caught up with what the virtual run had reached."""
+        if not exp:
+            await _settle()
+            return
+        def caught_up():
+            if journal_starts() < exp["spawns"]:
+                return False
+            for i, st in exp["states"].items():
+                if i in tids and sched.task_states.get(tids[i]) is not None and sched.task_states[tids[i]].name != st and st in ("RUNNING", "COMPLETED", "FAILED", "CANCELLED", "KILLED"):
+                    return False
+            return True
+        await _settle(caught_up, timeout=15.0, quiet=0.03)
+
     for act in actions:
+        exp = act[-1] if isinstance(act[-1], (dict, type(None))) and len(act) > 1 else None
         if act[0] == "op":
             op = act[1]
             if op[0] == "enq":
@@ -68,7 +89,7 @@ async def replay_real(sc, actions, workdir):
                 tids[i] = await sched.enqueue_task(name=f"t{i}", script=script(i), working_dir=workdir, time_limit=real_limit if t.get("time_limit") else None, deps=deps)
             elif op[0] == "cancel":
                 await sched.cancel_task(tids[op[1]])
-            await _settle()
+            await wait_expected(exp)
         elif act[0] == "exit":
             i, code = act[1], act[2]
             if code == -9:
@@ -84,10 +105,11 @@ async def replay_real(sc, actions, workdir):
                 wr()
             except OSError:
                 pass  # nobody reading: the process is gone already
-            await _settle(lambda: sched.task_states[tids[i]].name not in ("RUNNING",) or sched.tasks[tids[i]].done(), timeout=3.0)
+            await _settle(lambda: sched.task_states[tids[i]].name not in ("RUNNING",) or sched.tasks[tids[i]].done(), timeout=15.0, quiet=0.03)
+            await wait_expected(exp)
         elif act[0] == "timer":
             await asyncio.sleep(real_limit + 0.3)
-            await _settle()
+            await wait_expected(None)
     # drain: let kills finish (gentle kill sleeps 1 s)
     await _settle(lambda: all(t.done() for t in sched.tasks.values()), timeout=14.0, quiet=0.1)
     states = {i: sched.task_states[tids[i]].name for i in tids}
@@ -115,6 +137,22 @@ def virtual_run(sc, choices, scratch):
     ex, points = poolx.run_one(sc, scratch, choices)
     try:
         actions, ok = [], True
+        # re-run step by step to record, after every non-step action has been fully processed (next quiescent point), what the
+        # real run should wait for: number of spawns so far and the task states
+        ex2 = poolx.Exec(sc, scratch)
+        expect_after = []
+        pending_idx = None
+        try:
+            for (en, c, h) in points:
+                act = en[c]
+                ex2.apply(act)
+                if act[0] != "step":
+                    pending_idx = len(expect_after)
+                    expect_after.append(None)
+                if not ex2.loop.n_ready() and pending_idx is not None:
+                    expect_after[pending_idx] = dict(spawns=sum(f["spawns"] for f in ex2.facts.values()), states={i: ex2.state_name(i) for i in range(ex2.n) if i in ex2.tids})
+        finally:
+            ex2.close()
         for (en, c, h) in points:
             act = en[c]
             if en[0][0] == "step" and act[0] != "step":
@@ -130,7 +168,7 @@ def virtual_run(sc, choices, scratch):
                 actions.append(("timer",))
         states = {i: ex.state_name(i) for i in range(ex.n) if i in ex.tids}
         spawned = sorted(i for i in range(ex.n) if ex.facts[i]["spawns"])
-        return dict(actions=actions, replayable=ok, states=states, spawned=spawned, violations=len(ex.violations + ex.final_checks()))
+        return dict(actions=actions, replayable=ok, states=states, spawned=spawned, violations=len(ex.violations + ex.final_checks()), expect_after=expect_after)
     finally:
         ex.close()
 
@@ -141,6 +179,7 @@ def collapse_timers(actions):
     out, seen_timer = [], False
     for a in actions:
         if a[0] == "timer":
+            a = a[:1] + (None,)
             if not seen_timer:
                 out.append(a)
                 seen_timer = True
@@ -159,7 +198,8 @@ def trace_batch(acc, batch, prop=None):
             continue
         d = tempfile.mkdtemp(dir=scratch)
         try:
-            real = asyncio.run(replay_real(sc, collapse_timers(v["actions"]), d))
+            acts = [a + (v["expect_after"][k] if k < len(v["expect_after"]) else None,) for k, a in enumerate(v["actions"])]
+            real = asyncio.run(replay_real(sc, collapse_timers(acts), d))
         finally:
             shutil.rmtree(d, ignore_errors=True)
         case = dict(kind="real-trace", sc=sc, choices=choices)
